@@ -31,7 +31,7 @@ def x_obligations(tier):
         o.append(Obl(f"C05-rt-fields[{cfg},{base},{key},len<={n}]", M, "roundtrip_fields", env={"VF_BASE": base, "VF_KEY": key, "VF_N": str(n), "VF_CONFIG": cfg}, timeout=T, path_timeout=200, family="C05-rt",
                      bound=f"Sid(fields = fields of {base} with {key} = t), every str t with len<={n} (all code points); configuration {cfg}"))
     ship = [("hamlet/a/char/", 1, "/model/v001/w/ma"), ("hamlet/a/char/x_", 1, "/rig/v002/p/mov"), ("hamlet/s/sq01", 1, "/sh0010/anim/v001/w/ma"),
-            ("hamlet/s/sq010/sh0010/fx/v001/p/smok", 1, "/vdb")]      # the node-file path template names {node} before {state}
+            ("hamlet/s/sq010/sh0010/fx/v001/p/smoke/vd", 1, "")]      # the node-file path template names {node} before {state}
     for pre, n, suf in ship:
         for cfg in ("local", "server"):
             o.append(Obl(f"C05-rt[shipped,{cfg},{pre!r}+{n}+{suf!r}]", M, "roundtrip", env={"VF_CONF": "shipped", "VF_PRE": pre, "VF_N": str(n), "VF_SUF": suf, "VF_CONFIG": cfg}, timeout=T, path_timeout=300, family="C05-shipped",
